@@ -579,7 +579,8 @@ fn judge_in(ops: &dyn TypeOps, bytes: &[u8], wire_desc: &str, relation: &'static
                 if unordered && conflicting_keys(u) {
                     return Outcome::Skip("duplicate-keys-with-different-values-after-coercion");
                 }
-                let same = if unordered { sort_vecs(&dedup(&n.wire)) == sort_vecs(&dedup(u)) } else { n.wire == *u };
+                // (sorted first: two maps that differ only in element order are one element of an outer set)
+                let same = if unordered { dedup(&sort_vecs(&n.wire)) == dedup(&sort_vecs(u)) } else { n.wire == *u };
                 if !same && region == Some("excluded-known:C08-tuple-needs-tuple-wire") {
                     return Outcome::Fail(Failure::new("tuple-native-rejects-wire-record-that-is-not-a-tuple", describe()));
                 }
